@@ -33,11 +33,11 @@ PROFILES = {
     'C02': gen.profile(p_fail=0.0, p_retry=0.25, p_rec_nested=0.4, p_rec=0.2, p_share_lazy=0.4, p_sw=0.3),
     'C03': gen.profile(p_rec=0.3, p_share=0.5, p_rec_nested=0.4, p_generic=0.08),
     'C04': gen.profile(p_share=0.75, n_max=11, p_sw=0.22, p_oneof=0.2, p_rec=0.1),
-    'C05': gen.profile(p_fail=0.35, p_retry=0.3),
+    'C05': gen.profile(p_fail=0.35, p_retry=0.3, p_lazy_fail_shape=0.12),
     'C07': gen.profile(p_fail=0.2),
     'C08': gen.profile(p_fail=0.15, p_rec=0.25),
-    'C09': gen.profile(p_sw=0.45, p_oneof=0.1, p_rec=0.12, p_share_decider=0.5, p_unnamed_switch=0.4, p_share_lazy=0.4),
-    'C10': gen.profile(p_oneof=0.45, p_sw=0.1, p_rec=0.1, p_fail=0.25, p_cand_falsy=0.3, p_contain_shape=0.4),
+    'C09': gen.profile(p_sw=0.45, p_oneof=0.1, p_rec=0.12, p_share_decider=0.5, p_unnamed_switch=0.4, p_share_lazy=0.4, p_lazy_fail_shape=0.12),
+    'C10': gen.profile(p_oneof=0.45, p_sw=0.1, p_rec=0.1, p_fail=0.25, p_cand_falsy=0.3, p_contain_shape=0.4, p_deep_chain=0.1, p_lazy_fail_shape=0.12),
     'C11': gen.profile(p_rec=0.5, p_sw=0.1, p_oneof=0.1, p_rec_nested=0.45, p_falsy_ad=0.3),
     'C12': gen.profile(p_retry=0.8, p_fail=0.5, n_max=6),
     'C13': gen.profile(n_max=7),
@@ -69,7 +69,7 @@ FEATURE = {  # construct a program must contain to count as non-trivial for the 
 }
 
 HOSTILE_SHARE = 0.2
-HOSTILE_FAMILIES = ['candidate_none', 'switch_unknown_label', 'candidate_shared']
+HOSTILE_FAMILIES = ['candidate_none', 'switch_unknown_label', 'candidate_shared', 'dup_param']
 
 
 class Acc:
@@ -126,6 +126,10 @@ def gen_prog(rng, prop, hostile_ok=True):
             prof['p_rec'] = max(prof['p_rec'], 0.35)
         else:
             prof['hostile'] = fam
+    if rng.random() < 0.15:
+        # deeper nesting (a recurrent subgraph behind a node of a case of a switch inside a candidate ...)
+        prof['max_depth'] = 5
+        prof['n_max'] = max(prof.get('n_max', 9), 14)
     return gen.gen_program(rng, prof)
 
 
